@@ -218,8 +218,10 @@ def numpy_level(ctx, rng, pmod, mr, utils):
         return
     calls = mr.take()
     if len(calls) != 1:
-        rec.skip("np_" + kind, "native routine not called exactly once (%d)" % len(calls))
-        return
+        # whatever the Python layer did instead: the partitions must be those of the watershed of the smoothed spectrum
+        rec.note("native_routine_not_called_exactly_once")
+        L = np.array(mr.orig(np.ascontiguousarray(smooth.astype(np.float32)), ihmax), copy=True)
+        calls = [(np.ascontiguousarray(smooth.astype(np.float32)), ihmax, L)]
     L = calls[0][2]
     if req is None:
         # all detected, empty ones excluded: compare as if exactly the detected number was requested
